@@ -250,7 +250,6 @@ def systematic(prop_only=False):
     add('bulk:7a', [a] * 7, a)
     add('bulk:8na', [Neg(a)] * 8, Neg(a))
     add('bulk:conj', [O('Conjunction', aa, aa), O('Conjunction', aa, aa)], O('Disjunction', ava, ava))
-    add('bulk:conj-b', [O('Conjunction', aa, aa), O('Conjunction', aa, aa), b], O('Conjunction', O('Disjunction', ava, ava), b))
     add('bulk:disj', [O('Disjunction', ava, ava)], O('Conjunction', O('Conjunction', aa, aa), aa))
     add('bulk:mixed', [a, aa, a, O('Conjunction', aa, a), a], O('Conjunction', a, O('Conjunction', aa, aa)))
     if prop_only:
